@@ -77,6 +77,10 @@ CHAN_PROGS = [
     ("chan_mixed_struct.order",
      JOB + CHAN_HEAD + "task {\n    let r1 = c.read()\n    let r2 = c.read()\n    println(r1.id)\n    println(r2.id)\n    println(r2.items.len())\n"
      "    done.write(1)\n}\nc.write(j)\nc.write(Job(9, [4], \"z\"))\ndone.read()\n", "7\n9\n1\n"),
+    # arrival order with five values queued (queue disciplines that coincide with FIFO up to two elements differ from three on)
+    ("chan_order.five_queued",
+     "let q: channel<int> = channel()\nq.write(0)\nq.write(1)\nq.write(2)\nq.write(3)\nprintln(q.read())\nprintln(q.read())\nq.write(4)\n"
+     "println(q.read())\nprintln(q.read())\nprintln(q.read())\n", "0\n1\n2\n3\n4\n"),
     # a channel used as a local queue by ONE task (nobody else holds it): the value read is still an independent copy
     ("chan_local_queue.writer_mutates",
      "let q: channel<array<int>> = channel()\nlet a = [1, 2, 3]\nq.write(a)\nlet b = q.read()\na.push(4)\na[0] = 100\nprintln(b.len())\nprintln(b[0])\n"
